@@ -315,8 +315,12 @@ def show_attributes(self, out, prefix, attributes_level, print_width):
                 else:
                     is_first = True
                     for block in textwrap.wrap(
-                        value[1:-1], width=print_width - 2 - len(indent)
-                    ):
+                        value[1:-1],
+                        width=print_width - 2 - len(indent),
+                        expand_tabs=False,
+                        break_long_words=False,
+                        break_on_hyphens=False,
+                    ) or [value[1:-1]]:
                         if is_first:
                             print(
                                 prefix + "  ." + name, "=", '"' + block + '"', file=out
